@@ -64,25 +64,31 @@ def judge(case, run, model_out):
         from fractions import Fraction
         vals = case.fallback or [0.5, 1, 1.5]
         fb = [Fraction(kn.F32(vals[i] if i < len(vals) else vals[-1])) for i in range(3)]
-    oracle = kn.kn_oracle(clean, case.order, prune, allowed, case.interp, fb)
-    model = kn.parse_model(model_out)
+    bl = borderline(clean, case, prune)
+    if bl:
+        # float32 and exact arithmetic disagree on the range test of some order's closed form: judge lmplz against the estimate
+        # that takes the closed-form-or-fallback decision from the float32 test (everything else exact); the extracted model
+        # (exact decision) is not compared on such a case
+        force = [kn.float32_closed_form(n) is not None for n in kn.count_of_counts(clean, case.order)]
+        oracle = kn.kn_oracle(clean, case.order, prune, allowed, case.interp, fb, force_closed=force)
+        model_out = None
+        info["borderline"] = True
+    else:
+        oracle = kn.kn_oracle(clean, case.order, prune, allowed, case.interp, fb)
+    model = kn.parse_model(model_out) if model_out is not None else ("not-run",)
     corr = None
-    if model[0] != oracle[0] or (model[0] == "refused" and model[1] != oracle[1]):
+    if model_out is None:
+        pass
+    elif model[0] != oracle[0] or (model[0] == "refused" and model[1] != oracle[1]):
         corr = ("correspondence:refusal", "model %s, independent oracle %s" % (model[:2], oracle[:2]))
     # ---- refusal because the closed-form discounts do not exist
     if oracle[0] == "refused":
         info["kind"] = "discount-refused"
         if run.refused == "discount" and run.refused_order == oracle[1]:
             return None, corr, info
-        if borderline(clean, case, prune):
-            info["kind"] = "borderline-discount"
-            return None, None, info
         return (("spec:refusal", "no closed-form discount exists for order %d and no fallback was given, lmplz: exit status %d refused=%s order=%s"
                  % (oracle[1], run.rc, run.refused, run.refused_order)), corr, info)
     if run.rc != 0 or run.arpa_path is None:
-        if run.refused == "discount" and borderline(clean, case, prune):
-            info["kind"] = "borderline-discount"
-            return None, None, info
         return (("spec:not-built", "the estimate exists (discounts %s) but lmplz failed: exit status %d refused=%s: %s"
                  % ([[float(x) for x in d] for d in oracle[2]], run.rc, run.refused, run.err[-300:])), corr, info)
     info["accepted"] = True
@@ -116,11 +122,6 @@ def judge(case, run, model_out):
             kn.compare_with_exact(orders, words, model[3], what="model", ren=ren)
         if msg:
             corr = ("correspondence:" + ("discounts" if "printed D" in msg else "arpa"), msg)
-    if (ofail or corr) and borderline(clean, case, prune):
-        # a closed-form discount sits on the boundary of its accepted range (e.g. exactly 0): float and exact arithmetic may
-        # legitimately choose differently between the closed form and the fallback; nothing can be concluded from this case
-        info["kind"] = "borderline-discount"
-        return None, None, info
     info["pruned"] = any(oracle[1][k] < len(o) for k, o in enumerate([[1] * c for c in run_counts(run)]))
     info["fallback_used"] = ("Substituting fallback discounts" in run.err)
     return ofail, corr, info
@@ -137,7 +138,9 @@ def check_cases(ctx, cases, lmplz, model):
     for c in cases:
         sents = kn.tokenize(c.data)
         numbered = kn.number(sents, c.skip)
-        if numbered is None:
+        if c.tag.startswith("gen:wide"):
+            lines.append("NOP")           # too wide for the quadratic exact model: oracles only
+        elif numbered is None:
             lines.append("PRUNE %d %s" % (c.order, "-" if not c.prune else ",".join("%x" % x for x in c.prune)))
         else:
             lines.append(kn.model_line("I", c, numbered[0], numbered[1]))
@@ -153,7 +156,9 @@ def check_cases(ctx, cases, lmplz, model):
             ctx.report("spec:no-termination", "lmplz does not terminate (killed after %d s; corpora of this size take well under a second)" % ctx.pick(30, 120),
                        {"case": c.to_json(), "lmplz_cmd": " ".join(run.cmd), "stderr_tail": run.err[-300:]})
         try:
-            if model is None:
+            if c.tag.startswith("gen:wide"):
+                ofail, corr, info = judge(c, run, None)
+            elif model is None:
                 # the model does not build: judge with the oracle only
                 ofail, corr, info = judge(c, run, "REFUSED 0")
                 corr = None
@@ -198,7 +203,7 @@ def component_check(ctx, cases, model):
     import struct
     drv = vlib.compile_driver("c05_adjust_driver", os.path.join(vlib.ROOT, "harness", "drivers", "c05_adjust_driver.cc"),
                               libs=("kenlm_builder", "kenlm", "kenlm_util"))
-    pairs = [(l, c) for l, c in ((adjf_line(c), c) for c in cases) if l and len(l) < 400000]
+    pairs = [(l, c) for l, c in ((adjf_line(c), c) for c in cases) if l and len(l) < 400000 and not c.tag.startswith("gen:wide")]
     lines = [l for l, _ in pairs]
     case_of = dict(pairs)
     if not lines:
@@ -258,11 +263,15 @@ def run(ctx):
     cases += [kn.gen_case(rng, big) for _ in range(ngen)]
     # corpora with prescribed counts of counts on the case splits of the discount formula (D_j = 0, just in/out, D3 = 3, n_j = 0)
     cases += [kn.gen_profile_case(rng) for _ in range(ctx.pick(160, 2000))]
+    # wide corpora (6500-9000 distinct bigram contexts): every stream between the stages spans many buffers / chain blocks
+    cases += [kn.gen_wide_case(rng, k) for k in ("limit-few", "step")] + [kn.gen_wide_case(rng) for _ in range(ctx.pick(0, 40))]
     res = check_cases(ctx, cases, lmplz, model)
     kinds, nontrivial, spec_fail, corr_fail = {}, set(), [], []
     orders = {}
     for c, run_, ofail, corr, info in res:
         kinds[info.get("kind", "?")] = kinds.get(info.get("kind", "?"), 0) + 1
+        if info.get("borderline"):
+            ctx.count("cases_judged_with_the_float32_range_decision(rounding borderline)")
         if info.get("accepted"):
             orders[c.order] = orders.get(c.order, 0) + 1
             if c.order >= 2 and info.get("ngrams", 0) >= 8:
@@ -281,6 +290,7 @@ def run(ctx):
         "memory_small(-S 64K..250K)": sum(1 for c in cases if c.mem and c.mem[1] in ("64K", "250K")),
         "memory_tiny(-S 600b..8K: blocks of tens of records, multi-run merges)": sum(1 for c in cases if c.mem and c.mem[1] not in ("64K", "250K")),
         "output_files_pre_existing": sum(1 for c in cases if c.stale),
+        "wide_corpus(>6500 contexts at one order; oracle only)": sum(1 for c in cases if c.tag.startswith("gen:wide")),
         "degenerate_corpus_without_words": sum(1 for c in cases if c.tag == "gen:degenerate"),
         "renumbered(--renumber/--intermediate)": sum(1 for c in cases if c.renumber or c.intermediate),
         "renumbered_with_word_sorting_before_<s>": sum(1 for c in cases if (c.renumber or c.intermediate) and
